@@ -4,13 +4,13 @@
 # these runs goes to a scratch directory).  Writes seeded/<id>/detection.txt and prints one line per seed.
 set -u
 cd /verif
-M=/tmp/mrepo
+M=${MREPO:-/tmp/mrepo}
 git -C /repo worktree remove --force $M 2>/dev/null
 git -C /repo worktree add -q --detach $M HEAD || exit 2
 cp /repo/src/decaylanguage/_version.py $M/src/decaylanguage/_version.py
 trap 'git -C /repo worktree remove --force $M 2>/dev/null' EXIT
-export VERIF_REPO=$M PYTHONPATH=$M/src VERIF_EVIDENCE_DIR=/tmp/mevidence VERIF_REPLAY_DIR=/tmp/mreplays
-mkdir -p /tmp/mevidence /tmp/mreplays
+export VERIF_REPO=$M PYTHONPATH=$M/src VERIF_EVIDENCE_DIR=${M}_evidence VERIF_REPLAY_DIR=${M}_replays
+mkdir -p ${M}_evidence ${M}_replays
 seeds=("$@"); [ ${#seeds[@]} -eq 0 ] && seeds=(seeded/C*/)
 for d in "${seeds[@]}"; do
   d=${d%/}; id=$(basename $d); prop=${id%%-*}
